@@ -928,6 +928,8 @@ class CDSInterval(AbstractFeatureInterval):
                 A list of :class:`CDSFrame` that could be combined with the input Location to build a
                 :class:`CDSInterval`.
         """
+        if location.is_empty:
+            raise EmptyLocationException("Cannot construct frames for an empty location")
         # edge case: if there is only one block, then just return the starting frame
         if location.num_blocks == 1:
             return [starting_frame]
